@@ -88,7 +88,10 @@ var alienTypes = []string{"XFIH", "XFKM", "MThx", "mtrk", "RIFF", "\x00\x00\x00\
 func genAlien(r *core.Rand, big ...bool) ref.FChunk {
 	n := r.PickInt(0, 1, 2, 7, 8, 9, 50, 300)
 	if len(big) > 0 && big[0] && r.Chance(1, 60) {
-		n = r.PickInt(65536, 70000, 66000) // the length needs its third byte
+		n = r.PickInt(65536, 70000, 66000, 131072+513) // the length needs its third byte
+	}
+	if len(big) > 1 && big[1] && r.Chance(1, 2500) {
+		n = 1<<24 + r.PickInt(0, 1, 300, 70000) // ... and its fourth (thorough tier only)
 	}
 	return ref.FChunk{AlienType: alienTypes[r.Intn(len(alienTypes))], AlienData: r.Bytes(n)}
 }
@@ -111,7 +114,7 @@ func genForeign(r *core.Rand, tier string, bigAliens ...bool) *ref.FFile {
 	maxEv := r.PickInt(0, 1, 3, 8, 20, 40)
 	for t := 0; t < nTracks; t++ {
 		for aliens && r.Chance(1, 3) {
-			f.Chunks = append(f.Chunks, genAlien(r, bigAliens...))
+			f.Chunks = append(f.Chunks, genAlien(r, len(bigAliens) > 0 && bigAliens[0], len(bigAliens) > 0 && bigAliens[0] && tier == "thorough"))
 		}
 		if len(bigAliens) > 0 && bigAliens[0] && r.Chance(1, 400) {
 			// thousands of (empty) unknown chunks in a row
@@ -249,6 +252,14 @@ func foreignReach(f *ref.FFile, st *core.Stats) (h core.Hash, nontrivial bool) {
 				pos = "alien-after-last-track"
 			}
 			st.ReachKey(pos)
+			if pos != "alien-after-last-track" {
+				// (the library does not read what follows the last declared track)
+				if len(ch.AlienData) >= 1<<24 {
+					st.ReachKey("alien-length-needs-4-bytes")
+				} else if len(ch.AlienData) >= 1<<16 {
+					st.ReachKey("alien-length-needs-3-bytes")
+				}
+			}
 			h = h.Str(ch.AlienType).Bytes(ch.AlienData)
 			nontrivial = true
 			continue
